@@ -157,6 +157,15 @@ def check_config(cfg, w, rep):
             c = e.classes.get("dst")
             ok = c is not None and c[0] == "Content" and c[2][0] == "call" and c[2][1] == "ssri::IntegrityOpts::result" and \
                 c[2][2] and c[2][2][0][0] == "field" and c[2][2][0][2] == "builder"
+            # publication must REPLACE whatever sits at the address (rename): a stale or damaged file left there by a crash
+            # (or, with link_to, a symlink whose target changed) must not survive a successful write of the right bytes
+            if e.term.callee.path.endswith("persist_noclobber"):
+                rep.violation("d-noclobber:%s" % fn_key(lf),
+                              "`%s` publishes with persist_noclobber: when the address is already occupied the staged bytes are dropped and the "
+                              "old file stays — after a successful write, reads could return other bytes than were written" % short(lf.path),
+                              loc=e.loc(), config=cfg, rule="d-replacing-rename")
+            else:
+                rep.ob(cfg, "d-replacing-rename", fn_key(lf), "`%s` publishes with persist (rename replaces an existing file)" % short(lf.path))
             if ok:
                 rep.ob(cfg, "d-address", fn_key(lf), "`%s` persists to content_path(cache, builder.result())" % short(lf.path))
             else:
